@@ -8,8 +8,11 @@
 
     The declared operator table gen/Sigs.v is consulted as it is when [strict = false]; with it the statement is FALSE
     (theorem [pow_declared_nat_refuted]: the compiler declares Int ** Int : Nat) — finding K_pow of known/C26.json,
-    recorded for this property in known/C02.json.  [Known_C02 p] (Typing/Spec.v) is exactly that class: p is accepted
-    with the declared table and rejected once `**` is restricted to non-negative operands.
+    recorded for this property in known/C02.json.  [Known_C02 p] (Typing/Spec.v) is that class ([known_pow]: p is
+    accepted with the declared table and rejected once `**` is restricted to non-negative operands) together with
+    [known_ifarith] (arithmetic whose left operand is if-valued: erg types `if(a > b, (do: a), (do: b)) - 300` as Nat;
+    a deviation of erg's inference from the rules modelled here, so it has no witness inside the model: its witness is
+    replayed against erg by checks/c02.py).
     PARTIAL: fragment of Typing/Check.v (no classes, traits, generics, mutable objects, while!, keyword arguments,
     pattern definitions, procedures); erg is tied program by program (checks/c02.py). *)
 From Coq Require Import ZArith List Bool.
@@ -31,7 +34,8 @@ Proof. intros p fuel _ _. apply run_sound. Qed.
 Theorem accepted_is_run : forall p fuel,
   typecheck false p = true -> Known_C02 p = false -> snd (run_prog true fuel p) <> Rejected.
 Proof.
-  intros p fuel H K. unfold Known_C02 in K. rewrite H in K. cbn in K. apply negb_false_iff in K.
+  intros p fuel H K. unfold Known_C02 in K. apply orb_false_iff in K. destruct K as [K _].
+  unfold known_pow in K. rewrite H in K. cbn in K. apply negb_false_iff in K.
   unfold run_prog. rewrite K. destruct (exec_block true fuel p init_state); cbn; discriminate.
 Qed.
 
@@ -70,5 +74,5 @@ Qed.
 (** 4. with the table as declared the statement is false: x = -2; y = x ** 3 is accepted and the wrapper raises *)
 Definition ex_pow : prog := [TDef 1 None (XLit (LNeg (-2))); TDef 2 None (XBin OPow (XVar 1) (XLit (LNat 3))); TPrint [XVar 2]].
 Theorem pow_declared_nat_refuted :
-  exists p, typecheck false p = true /\ Known_C02 p = true /\ snd (run_prog false 1 p) = Uncaught EWrapValue.
+  exists p, typecheck false p = true /\ known_pow p = true /\ snd (run_prog false 1 p) = Uncaught EWrapValue.
 Proof. exists ex_pow. repeat split; vm_compute; reflexivity. Qed.
